@@ -11,6 +11,11 @@ import ScionTime.Gen.Unixutil
 namespace ScionTime.C18Float
 open ScionTime.F64 ScionTime.UnixutilFloat
 
+/-- Pins: the scale factor inside both function bodies of /repo's current source
+    (`65536.0 * 1e6`, evaluated exactly by harness/extract) is the model's. -/
+theorem C18_pin_scale_to : Gen.Unixutil.scaledPPMFromFreqFactor = scale := by decide
+theorem C18_pin_scale_from : Gen.Unixutil.freqFromScaledPPMFactor = scale := by decide
+
 /-! ### scaled ppm -> frequency -> scaled ppm -/
 
 /-- C18: `ScaledPPMFromFreq (FreqFromScaledPPM x)` is within one unit of `x`, for
